@@ -176,10 +176,13 @@ def gen_cases(seed, chunk, n, tier):
 
     rng = random.Random(seed * 7919 + chunk * 104729 + 1)
     out = [twin_case(rng) for _ in range(max(1, n // 8))]
-    from .c05 import depth2_case
-    for _ in range(max(1, n // 8)):
+    from .c05 import conj_history_case, depth2_case
+    for _k in range(2 * max(1, n // 8)):
         fermi_ = rng.random() < 0.5
-        it, env2_, steps_ = depth2_case(rng, fermi=fermi_, with_conj=True, dagger=rng.random() < 0.3)
+        if _k % 2:
+            it, env2_, steps_ = conj_history_case(rng, fermi=fermi_)
+        else:
+            it, env2_, steps_ = depth2_case(rng, fermi=fermi_, with_conj=True, dagger=rng.random() < 0.3)
         produced = []
         for st in steps_:
             v = env2_.get(st["out"][0])
